@@ -143,6 +143,8 @@ class Run:
         numba.set_num_threads(numba.config.NUMBA_NUM_THREADS)
         self.seams = S.EvalSeams(rec)
         self.seams.trace_until_history = False
+        if any(p.expression is not None for p in self.template.all()):
+            self.seams.on_group_calculate = self.expression_probe
         segments = self.split(plan["ops"])
         with self.seams:
             try:
@@ -312,6 +314,28 @@ class Run:
             self.fault_pending = False
         self.last_x = np.array(x, dtype=float, copy=True)
         return pen
+
+    def expression_probe(self, parameters):
+        """C12 in-run probe: the model must be evaluated with mutually consistent parameter values."""
+        from sim import paramsim
+
+        declared = [
+            {"label": p.label, "expr": p.expression, "value": p.value, "non_negative": p.non_negative, "vary": p.vary}
+            for p in parameters.all()
+        ]
+        model = paramsim.Model(declared)
+        want = model.values()
+        self.rec.probe("expression_consistency_checked_at_evaluation")
+        for p in parameters.all():
+            if p.expression is not None and not paramsim.same(p.value, want[p.label]):
+                if not self.rec.violations:
+                    self.rec.violate(
+                        "C10/evaluated-with-stale-expression",
+                        "purity",
+                        f"model evaluated with {p.label} = {p.value!r} although its expression {p.expression!r} gives "
+                        f"{want[p.label]!r} on the current values (property C12 seen from inside an optimisation)",
+                    )
+                return
 
     def probe_fault_site(self, fired):
         at = fired.get("at")
